@@ -5,6 +5,7 @@ CONSTANTS
   RecyclesWrappers = TRUE
   SharedDefaults = FALSE
   MaxOps = 4
+  SharedCloser = FALSE
   OnceIsNilCheck = FALSE
 INVARIANTS InvRetained
 CHECK_DEADLOCK FALSE
